@@ -52,8 +52,8 @@ HalfToneLaw(e) ==
    /\ e.len_equal /\ e.dur_equal /\ e.nodata_equal /\ e.spectrum_equal /\ e.lpf_equal      \* nothing else changes
    /\ (e.h8 = 0 => e.lf0_equal)                                                           \* h = 0 is the identity
    /\ (~e.clamped => \A i \in 1..Len(e.diffs) : Abs(e.diffs[i] - e.h8 * 7220283) <= 3 + Abs(e.h8))
-   /\ (e.clamped => \A i \in 1..Len(e.diffs) : (e.h8 >= 0 => e.diffs[i] >= -3 /\ e.diffs[i] <= e.h8 * 7220283 + 3 + Abs(e.h8))
-                                             /\ (e.h8 <= 0 => e.diffs[i] <= 3 /\ e.diffs[i] >= e.h8 * 7220283 - 3 - Abs(e.h8)))
+   \* once a state mean reaches the 20 Hz .. 20 kHz limit the property claims nothing about the size of the shift
+   \* (MLPG smoothing and GV redistribute the clamped means over neighbouring frames)
 HalfTone == IsEv("halftone") /\ HalfToneLaw(Rec[l]) /\ UNCHANGED sweep
 
 \* ---- C16: volume v dB = v_milli / 1000: every sample is multiplied by 10^(v/20)
